@@ -9,6 +9,21 @@
    src/encoded_strings.rs by `./check C06` (image byte-exact, re-parsed entries, independent
    reference reader, A-codec sweep over every scalar value on the real library).
 
+   DOMAIN ("any NUL-free text ... Shift-JIS-representable text for the legacy format").  The theorems quantify over ENCODED
+   strings.  Read at the level of Rust Strings, through to_shift_jis / SHIFT_JIS.decode, they are statements about the
+   strings s with decode (encode s) = s ("lossless"; A-codec, checked per string by the harness).  That is narrower than
+   "encodes without error": encoding_rs' Shift-JIS encoder (WHATWG) also accepts
+       U+00A5 YEN SIGN  -> 5C     (decodes to U+005C REVERSE SOLIDUS)
+       U+203E OVERLINE  -> 7E     (decodes to U+007E TILDE)
+       U+2212 MINUS SIGN -> 81 7C (decodes to U+FF0D FULLWIDTH HYPHEN-MINUS)
+   so a key "\u{A5}k", a title "\u{A5}" or a legacy message "m\u{203E}\u{2212}" serializes without error and comes back as
+   "\\k", "\\", "m~\u{FF0D}": these three code points are OUTSIDE the property's domain as read here (the same three that the
+   quantifier of C01 names), for keys and the title in both formats and for legacy messages; the round trip holds for them
+   only "up to decode o encode".  In the other direction, byte strings that decode without error but are not the encoder's
+   choice (the NEC row 13 / IBM extension duplicates, 0x80, 0xA0, 0xFD-0xFF) parse to a String whose re-encoding differs
+   from the file; they concern re-serialization of foreign files (C05, C06_parse_any_conforming_file), not the round trip
+   of an archive built through the API.  UTF-16 messages have no such exclusion (C06_utf16_codec: every scalar value).
+
    Layers.  (1) archive level, fully proved: from_archive inverts build_archive - the BinArchive
    the writer hands to BinArchive::serialize - for all four encoding x endianness combinations,
    the empty archive and empty messages included.  (2) byte level: the reader only depends on
@@ -23,6 +38,7 @@ From Coq Require Import List NArith ZArith Bool.
 From Mila Require Import Lib.Bytes Lib.Machine Model.BinArchive Model.BinStreams Model.BinFormat Model.TextMap Model.TextFormat Model.TextCodec
   Proofs.BinFormatSpec Proofs.BinSerializeConforms Proofs.ObsEqual Proofs.TextFormatRead Proofs.TextFormatWrite Proofs.TextFormatRoundTrip Proofs.TextBinBridge
   Proofs.Utf16Proofs Proofs.TextHistory.
+From Mila Require Proofs.TextTotal.
 Import ListNotations.
 Local Open Scope N_scope.
 
@@ -88,6 +104,23 @@ Definition C06_layout_bytes_statement (m : mode) : Prop :=
         off mod 4 = 0 /\ read_labels a' off = Ok (Some [k]) /\ sliceN off (lenN (cell fmt msg)) (a_data a') = Some (cell fmt msg).
 Theorem C06_layout_bytes : forall m, C06_layout_bytes_statement m.
 Proof. exact text_layout_bytes_final. Qed.
+(* the same on the FILE through the independent format relation [conforms] (Proofs/BinFormatSpec.v: written from the format
+   description, it mentions neither serialize nor from_bytes): the image conforms with a content that has no pointers and no
+   strings, whose data region is the title cell followed by the message cells, and whose label map puts exactly [key] on
+   every message offset, each a multiple of 4 *)
+Theorem C06_layout_conforms : forall m fmt e t, wf_text_bytes fmt e t ->
+  exists f c, TextFormat.serialize m fmt e t = Ok f /\ wfb f /\ conforms e f c /\
+    c_ptrs c = [] /\ c_text c = [] /\
+    c_data c = a_data (text_image fmt e t) /\ c_labels c = a_labels (text_image fmt e t) /\
+    forall i k msg, nth_error (t_entries t) i = Some (k, msg) ->
+      let off := entry_offset fmt t i in
+      off mod 4 = 0 /\ am_get off (c_labels c) = Some [k] /\ sliceN off (lenN (cell fmt msg)) (c_data c) = Some (cell fmt msg).
+Proof. exact text_layout_conforms. Qed.
+(* whatever the reader accepts is clean (C07's "the dirty flag is clear on a ... parsed archive"), unconditionally *)
+Theorem C06_parsed_is_clean : forall fmt a t, TextFormat.from_archive fmt a = Ok t -> t_dirty t = false.
+Proof. exact TextTotal.from_archive_is_clean. Qed.
+Theorem C06_from_bytes_is_clean : forall fmt e f t, TextFormat.from_bytes fmt e f = Ok t -> t_dirty t = false.
+Proof. exact TextTotal.from_bytes_is_clean. Qed.
 
 (* ---- (2b) any conforming FILE, not only this writer's image ---- *)
 (* from_bytes on a file that conforms to the bin-archive format relation of C01 (tables in any order, strings anywhere,
